@@ -162,6 +162,52 @@ func TestPairingTrace(t *testing.T) {
 		emit(map[string]any{"op": "sid", "cli": sidOf(c1), "srv": sidOf(s2), "same": 0})
 		// the passphrase no longer matters once keys are known
 		emit(map[string]any{"op": "sid", "cli": sidOf(sid(ck, sk.PubKey(), ent2)), "srv": sidOf(s2), "same": 1})
+		// the same objects through the pairing, as a session uses them: the
+		// SID is asked for before the pairing, the peer's key arrives through
+		// SetRemote - whose callback may look at the connection data, and
+		// another goroutine (Accept / Dial of a reconnect) may ask for the SID
+		// while the callback runs - and afterwards both sides must be at the
+		// key-derived rendezvous
+		for variant := 0; variant < 3; variant++ {
+			var live [2]*mailbox.ConnData
+			gate := make(chan struct{})
+			for side, k := range []*btcec.PrivateKey{ck, sk} {
+				side := side
+				live[side] = mailbox.NewConnData(ecdhOf(k), nil, ent1, nil,
+					func(*btcec.PublicKey) error {
+						switch variant {
+						case 1: // the callback itself inspects the data
+							live[side].SID()
+							live[side].HandshakePattern()
+						case 2: // somebody else asks while the callback runs
+							gate <- struct{}{}
+							<-gate
+						}
+						return nil
+					}, nil)
+			}
+			b0, _ := live[0].SID()
+			b1, _ := live[1].SID()
+			emit(map[string]any{"op": "sid", "cli": sidOf(b0), "srv": sidOf(b1), "same": 1})
+			for side, peer := range []*btcec.PublicKey{sk.PubKey(), ck.PubKey()} {
+				done := make(chan error, 1)
+				go func() { done <- live[side].SetRemote(peer) }()
+				if variant == 2 {
+					<-gate
+					live[side].SID()
+					gate <- struct{}{}
+				}
+				if err := <-done; err != nil {
+					t.Fatal(err)
+				}
+			}
+			a0, _ := live[0].SID()
+			a1, _ := live[1].SID()
+			emit(map[string]any{"op": "sid", "cli": sidOf(a0), "srv": sidOf(a1), "same": 1})
+			emit(map[string]any{"op": "sid", "cli": sidOf(a0), "srv": sidOf(s2), "same": 1})
+			emit(map[string]any{"op": "sid", "cli": sidOf(c2), "srv": sidOf(a1), "same": 1})
+			emit(map[string]any{"op": "sid", "cli": sidOf(a0), "srv": sidOf(b1), "same": 0})
+		}
 	}
 	b, _ := json.Marshal(map[string]any{"lines": n})
 	os.WriteFile(filepath.Join(dir, "pairing_summary.json"), b, 0o644)
